@@ -79,6 +79,20 @@ func main() {
 		}
 		tw, _ := strconv.Atoi(os.Args[2])
 		rules.DumpPaths(rules.NewRun(pp, "quick"), tw, os.Args[3])
+	case "obs":
+		// development aid: print every obligation of one property on the tree
+		if len(os.Args) < 3 {
+			usage()
+		}
+		p, err := core.Load(core.LoadOpts{Dir: repoDir()})
+		if err != nil {
+			fmt.Println(err)
+			os.Exit(2)
+		}
+		rep := safeRun(rules.Registry[os.Args[2]], rules.NewRun(p, "quick"), os.Args[2])
+		for _, o := range rep.Obs {
+			fmt.Printf("[%s] %s @ %s :: %s\n", o.Status, o.Key(), o.Pos, o.Detail)
+		}
 	case "list":
 		var ids []string
 		for id := range rules.Registry {
